@@ -195,9 +195,11 @@ def _scanner(state, chart, processed):
     # We have an incomplete state and the next token is the word given as input
     # We move the end token and the dot token by one.
     end_idx = state.positions[1]
-    state.parse_tree.sons.append(ParseTree(state.production.body[state.positions[2]]))
+    # The tree of the new state must not be shared with the scanned state
+    parse_tree = ParseTree(state.parse_tree.value)
+    parse_tree.sons = state.parse_tree.sons + [ParseTree(state.production.body[state.positions[2]])]
     new_state = State(state.production, (state.positions[0], end_idx + 1, state.positions[2] + 1),
-                      state.feature_stucture, state.parse_tree)
+                      state.feature_stucture, parse_tree)
     if processed.add(end_idx + 1, new_state):
         chart[end_idx + 1].append(new_state)
 
@@ -217,8 +219,9 @@ def _completer(state, chart, processed):
                 copy_right_considered.unify(copy_left)
             except FeatureStructuresNotCompatibleException:
                 continue
-            parse_tree = next_state.parse_tree
-            parse_tree.sons.append(state.parse_tree)
+            # The tree of the new state must not be shared with the advanced state
+            parse_tree = ParseTree(next_state.parse_tree.value)
+            parse_tree.sons = next_state.parse_tree.sons + [state.parse_tree]
             new_state = State(next_state.production,
                               (next_state.positions[0], state.positions[1], next_state.positions[2] + 1),
                               copy_right, parse_tree)
